@@ -147,6 +147,14 @@ func expandLayout(layout string, n int, seed uint64) []geometry.Point {
 		for i := range pts {
 			pts[i] = geometry.Point{X: math.Ldexp(r.unit()-0.5, int(r.next()%120)-60), Y: math.Ldexp(r.unit()-0.5, int(r.next()%120)-60)}
 		}
+	case "huge": // finite coordinates near the top of the double range, all on one side of zero: min+max overflows
+		for i := range pts {
+			pts[i] = geometry.Point{X: 1.4e308 + r.unit()*2e307, Y: 1.4e308 + r.unit()*2e307}
+		}
+	case "huge-mixed": // both signs: max-min overflows
+		for i := range pts {
+			pts[i] = geometry.Point{X: (r.unit() - 0.5) * 2 * 1.7e308, Y: (r.unit() - 0.5) * 2 * 1.7e308}
+		}
 	case "ring": // a closed polygon-like loop (star-shaped), useful for the predicate differential
 		for i := range pts {
 			a := 2 * math.Pi * float64(i) / float64(n)
@@ -464,6 +472,14 @@ func c04Predicates(c *c04Case, pts []geometry.Point, layout string) fw.Outcome {
 	if len(pts) > 3000 && c.Seed%8 != 0 {
 		return fw.Outcome{}
 	}
+	// the predicates multiply coordinate differences: where those products overflow (|x| > 1e150) their answers
+	// depend on the order in which segments are visited, which no index promises; only the search itself is
+	// asserted there (DESIGN.md §7)
+	for _, p := range pts {
+		if math.Abs(p.X) > 1e150 || math.Abs(p.Y) > 1e150 {
+			return fw.Outcome{}
+		}
+	}
 	cfgs := []*geometry.IndexOptions{{Kind: geometry.None}, {Kind: geometry.RTree, MinPoints: 1}, {Kind: geometry.QuadTree, MinPoints: 1},
 		{Kind: geometry.IndexKind(c.Kind), MinPoints: c.MinPoints}}
 	// probes derived from the queries and the points
@@ -483,6 +499,13 @@ func c04Predicates(c *c04Case, pts []geometry.Point, layout string) fw.Outcome {
 		q := pts[(i*104729+1)%len(pts)]
 		probesP = append(probesP, geometry.Point{X: (p.X + q.X) / 2, Y: (p.Y + q.Y) / 2})
 	}
+	finite := probesP[:0:0]
+	for _, p := range probesP {
+		if !math.IsInf(p.X, 0) && !math.IsInf(p.Y, 0) && !math.IsNaN(p.X) && !math.IsNaN(p.Y) {
+			finite = append(finite, p)
+		}
+	}
+	probesP = finite
 	var probeLines []*geometry.Line
 	for i := 0; i+1 < len(probesP) && i < 12; i += 2 {
 		probeLines = append(probeLines, geometry.NewLine([]geometry.Point{probesP[i], probesP[i+1]}, nil))
@@ -540,7 +563,7 @@ func c04Rev(l *geometry.Line, g geometry.Geometry) bool {
 	return false
 }
 
-var c04Layouts = []string{"uniform", "clustered", "collinear-h", "collinear-v", "diagonal", "identical", "duplicates", "spiral", "lattice", "wide", "ring"}
+var c04Layouts = []string{"huge", "huge-mixed", "uniform", "clustered", "collinear-h", "collinear-v", "diagonal", "identical", "duplicates", "spiral", "lattice", "wide", "ring"}
 
 func c04Sizes(tier string) []int {
 	s := []int{0, 1, 2, 3, 4, 5, 31, 32, 33, 34, 63, 64, 65, 254, 255, 256, 257, 258, 1000}
@@ -566,6 +589,9 @@ func genQueries(t *rapid.T, pts []geometry.Point, closed bool, nq int) []qRect {
 			return lo + rapid.Float64Range(-1, 1).Draw(t, label)
 		}
 		w := hi - lo
+		if math.IsInf(w, 0) || math.IsInf(lo-w*0.1, 0) || math.IsInf(hi+w*0.1, 0) {
+			return rapid.Float64Range(lo, hi).Draw(t, label)
+		}
 		return rapid.Float64Range(lo-w*0.1, hi+w*0.1).Draw(t, label)
 	}
 	midline := func(lo, hi float64, label string) float64 {
